@@ -1,1 +1,96 @@
 """String, fmt, io and serde models (registered on import by models.py)."""
+import re
+
+import z3
+
+from .models import model, D
+from .values import (Cell, Ref, Adt, VecV, MapV, IterV, EnumC, Sym, Opaque, UNIT, Panic, Unsupported,
+                     clone_val, some, none, ok, err)
+
+
+# --------------------------------------------------------------------------- time (Instant / Duration as integers in ms)
+def _ms(v):
+    """int | z3 BV | z3 Int -> int | z3 Int (milliseconds)"""
+    if isinstance(v, Opaque):
+        v = v.term
+    if z3.is_expr(v) and z3.is_bv(v):
+        return z3.BV2Int(v, False)
+    return v
+
+
+@model(exact=('Instant::now', 'std::time::Instant::now'))
+def m_instant_now(it, name, a):
+    return Adt('Instant', None, [it.env.now(it)])
+
+
+@model(exact=('Duration::from_millis', 'std::time::Duration::from_millis'))
+def m_from_millis(it, name, a):
+    return Adt('Duration', None, [_ms(a[0])])
+
+
+@model(exact=('Duration::from_secs', 'std::time::Duration::from_secs'))
+def m_from_secs(it, name, a):
+    return Adt('Duration', None, [_ms(a[0]) * 1000])
+
+
+@model(exact=('Duration::as_millis', 'std::time::Duration::as_millis'))
+def m_as_millis(it, name, a):
+    return it.deref(a[0]).f[0]
+
+
+@model(r'<Instant as Add<Duration>>::add', r'<std::time::Instant as Add<std::time::Duration>>::add', exact=('Instant::checked_add',))
+def m_instant_add(it, name, a):
+    x, y = it.deref(a[0]), it.deref(a[1])
+    r = Adt('Instant', None, [x.f[0] + y.f[0]])
+    return some(r) if name.endswith('checked_add') else r
+
+
+@model(r'<Instant as Sub>::sub', r'<Instant as Sub<Instant>>::sub', exact=('Instant::duration_since', 'Instant::saturating_duration_since'))
+def m_instant_sub(it, name, a):
+    x, y = it.deref(a[0]).f[0], it.deref(a[1]).f[0]
+    if isinstance(x, int) and isinstance(y, int):
+        return Adt('Duration', None, [max(0, x - y)])
+    return Adt('Duration', None, [z3.If(x >= y, x - y, 0)])
+
+
+@model(r'<Instant as Sub<Duration>>::sub')
+def m_instant_sub_dur(it, name, a):
+    return Adt('Instant', None, [it.deref(a[0]).f[0] - it.deref(a[1]).f[0]])
+
+
+@model(r'<Instant as AddAssign<Duration>>::add_assign')
+def m_instant_add_assign(it, name, a):
+    from .models import innermost_ref
+    r = innermost_ref(it, a[0])
+    cur = it.read(r.cell, r.path)
+    it.write(r.cell, r.path, Adt('Instant', None, [cur.f[0] + it.deref(a[1]).f[0]]))
+    return UNIT
+
+
+@model(r'<(Instant|Duration) as PartialOrd>::(ge|gt|le|lt)', r'<(Instant|Duration) as PartialEq>::(eq|ne)')
+def m_time_cmp(it, name, a):
+    x, y = it.deref(a[0]).f[0], it.deref(a[1]).f[0]
+    op = name.split('::')[-1]
+    return {'ge': lambda: x >= y, 'gt': lambda: x > y, 'le': lambda: x <= y, 'lt': lambda: x < y,
+            'eq': lambda: x == y, 'ne': lambda: x != y}[op]()
+
+
+@model(exact=('Instant::elapsed',))
+def m_instant_elapsed(it, name, a):
+    now = it.env.now(it)
+    x = it.deref(a[0]).f[0]
+    return Adt('Duration', None, [z3.If(now >= x, now - x, 0)])
+
+
+@model(exact=('std::thread::sleep', 'thread::sleep'))
+def m_sleep(it, name, a):
+    if it.env is not None and hasattr(it.env, 'sleep'):
+        it.env.sleep(it, a[0].f[0])
+    return UNIT
+
+
+@model(exact=('std::io::_eprint', 'std::io::_print', 'std::io::stdio::_eprint', 'std::io::stdio::_print'))
+def m_print(it, name, a):
+    return UNIT
+
+from . import fmtmodel  # noqa: E402,F401
